@@ -24,7 +24,7 @@ def judge_tables(T, rows):
     order = [rows[str(i)]["order"] for i in range(1, n + 1)]
     subtt = [rows[str(i)]["subtt"] for i in range(1, n + 1)]
     tab = {"types": T, "order": order, "subtt": subtt, "parents": typeuniv.PARENTS, "attrs": typeuniv.ATTRS, "equiv": typeuniv.EQUIV,
-           "rows": [{k: v for k, v in rows[str(i)].items() if k in ("clssub", "dispatch", "dispatch_alone", "twin")} for i in range(1, n + 1)],
+           "rows": [{k: v for k, v in rows[str(i)].items() if k in ("clssub", "clssub_raw", "dispatch", "dispatch_alone", "twin")} for i in range(1, n + 1)],
            "rowids": {str(i): 1 for i in range(1, n + 1)}}
     return tab
 
@@ -102,7 +102,7 @@ def run(prop, tier, seed, replay=None):
             pair = {"i": i, "a": T[i - 1], "j": j, "b": T[j - 1] if j else None,
                     "order_ab": rows[str(i)]["order"][j - 1] if j else None,
                     "order_ba": rows[str(j)]["order"][i - 1] if j else None,
-                    "row": {k: v for k, v in rows[str(i)].items() if k in ("clssub", "dispatch", "dispatch_alone", "twin")} if not j else None}
+                    "row": {k: v for k, v in rows[str(i)].items() if k in ("clssub", "clssub_raw", "dispatch", "dispatch_alone", "twin")} if not j else None}
             rep.rejected(rej["clause"], {"kind": "type_pair", **pair, "types": T},
                          {"a": T[i - 1], "b": T[j - 1] if j else None, "T": T, "i": i, "j": j,
                           "oab": pair["order_ab"], "oba": pair["order_ba"]})
@@ -114,7 +114,7 @@ def run(prop, tier, seed, replay=None):
             n2 = len(dr["types"])
             tab2 = {"types": dr["types"], "order": [dr["rows"][str(i)]["order"] for i in range(1, n2 + 1)],
                     "subtt": [dr["rows"][str(i)]["subtt"] for i in range(1, n2 + 1)], "parents": dr["parents"], "attrs": dr["attrs"],
-                    "equiv": [], "rows": [{k: v for k, v in dr["rows"][str(i)].items() if k in ("clssub", "dispatch", "dispatch_alone", "twin")} for i in range(1, n2 + 1)],
+                    "equiv": [], "rows": [{k: v for k, v in dr["rows"][str(i)].items() if k in ("clssub", "clssub_raw", "dispatch", "dispatch_alone", "twin")} for i in range(1, n2 + 1)],
                     "rowids": {str(i): 1 for i in range(1, n2 + 1)}}
             d2 = tlc.scratch_dir("types")
             path2 = os.path.join(d2, "tab.json")
